@@ -21,6 +21,7 @@
 (*        tags, ts}]}  alone_ok: envelope + the largest metric of the      *)
 (*        datagram alone is within max_packet                              *)
 (*  emitted {n}   sender side: a batch was handed to the transport         *)
+(*  hammer {sent, received, dup}  distinct values through one shared handle *)
 (*  panic {t, msg} | deadlock {where} | end {pending, qlen, done} | endx   *)
 (***************************************************************************)
 EXTENDS M3Reporter, Json
@@ -109,6 +110,10 @@ TNext ==
        [] r.e = "emitted" ->
             (* sender side (observation hook of the batching loop): a batch was handed to the transport *)
             /\ IF closeReturned THEN Fail("CloseDrains:emit-after-Close-returned") ELSE TRUE
+            /\ UNCHANGED <<calls, cfgv, sentD, bad, occ, lastTn, panicked, closeRes, called, returned, retAtClose, closeCalled, closeReturned, lateEnq>> /\ Unobs
+       [] r.e = "hammer" ->
+            (* many distinct values pushed through one plain handle by several goroutines: none arrives twice *)
+            /\ IF r.dup > 0 THEN Fail("AtMostOnce") ELSE TRUE
             /\ UNCHANGED <<calls, cfgv, sentD, bad, occ, lastTn, panicked, closeRes, called, returned, retAtClose, closeCalled, closeReturned, lateEnq>> /\ Unobs
        [] r.e = "panic" ->
             /\ panicked' = TRUE /\ bad' = TRUE
